@@ -348,7 +348,9 @@ NO_TSAN static VS *vs_of(int fd)
 static ares_socket_t s_socket(int, int type, int, void *)
 {
   int fds[2];
-  if (socketpair(AF_UNIX, (type == SOCK_STREAM ? SOCK_STREAM : SOCK_DGRAM) | SOCK_NONBLOCK | SOCK_CLOEXEC, 0, fds) != 0) return ARES_SOCKET_BAD;
+  // raw system call, like the close: descriptor numbers are reused and ThreadSanitizer's descriptor tracking would report
+  // the event thread's (harmless, ENOENT) epoll_ctl(DEL) for the previous owner of a number against this creation
+  if (exb_raw_socketpair(AF_UNIX, (type == SOCK_STREAM ? SOCK_STREAM : SOCK_DGRAM) | SOCK_NONBLOCK | SOCK_CLOEXEC, 0, fds) != 0) return ARES_SOCKET_BAD;
   if (g_nsocks >= 64) {
     viol("HARNESS:sockets", "too many sockets");
     return ARES_SOCKET_BAD;
@@ -369,8 +371,11 @@ static int s_close(ares_socket_t fd, void *)
   }
   s->open = false;
   s->nclose++;
-  close(s->fd);
-  close(s->peer);
+  // closed with raw system calls: ThreadSanitizer also tracks descriptors, and by design the library closes a socket
+  // right after queueing its removal for the event thread, whose later epoll_ctl(DEL) on that (closed, possibly reused)
+  // number is answered ENOENT by the kernel - an ordering between kernel objects, not a data race of the program
+  exb_raw_close(s->fd);
+  exb_raw_close(s->peer);
   s->fd = -1000 - fd; // never matches again (the OS may reuse the number)
   return 0;
 }
